@@ -505,6 +505,23 @@ func Exec(fsys hackpadfs.FS, st Step, hs *Handles, mt MTimeSet) (res Result) {
 			break
 		}
 		fillErr(&res, hackpadfs.Rename(view, st.P2, st.P2+"-renamed"))
+	case "SubSymlink": // inside a view of directory P: a link P2+"-lnk" to P2; then the link is read through the view
+		view, err := hackpadfs.Sub(fsys, st.P)
+		if err != nil {
+			fillErr(&res, err)
+			res.Data = "first-level-failed"
+			break
+		}
+		err = hackpadfs.Symlink(view, st.P2, st.P2+"-lnk")
+		fillErr(&res, err)
+		if err == nil {
+			// where the link leads: what it names is the view's own P2, so reading it gives that file's bytes
+			if b, rerr := hackpadfs.ReadFile(view, st.P2+"-lnk"); rerr == nil {
+				res.Data = "link reads: " + string(b)
+			} else {
+				res.Data = "link reads: " + Class(rerr)
+			}
+		}
 	case "SubSub": // a view of directory P2 taken from a view of directory P; the result is that of the second call
 		view, err := hackpadfs.Sub(fsys, st.P)
 		if err != nil {
